@@ -190,12 +190,6 @@ def RecOk (r : MapbcRec) : Prop :=
   '\n' ∉ r.line ∧ r.line.length < 1023 ∧
     ∃ r1 r2, scanInt r.line = some (r.id, r1) ∧ scanInt r1 = some (r.ty, r2)
 
-theorem isDigit_newline : ∀ c ∈ (('\n' :: ([] : List Char)) ++ ([] : List Char)).head?, isDigit c = false := by
-  intro c hc
-  simp only [List.cons_append, List.nil_append, List.head?_cons, Option.mem_def, Option.some.injEq] at hc
-  subst hc
-  decide
-
 theorem mapbcLoop_records (recs : List MapbcRec) (hr : ∀ r ∈ recs, RecOk r) (tail : List Char) (d : RDict) :
     mapbcLoop recs.length (recs.flatMap (fun r => r.line ++ ['\n']) ++ tail) d
       = (recs.foldl (fun d r => (d.store r.id r.ty).1) d, Status.ok) := by
@@ -247,5 +241,140 @@ theorem readMapbc_wellformed (d : RDict) (header : List Char) (recs : List Mapbc
   rw [scanInt_append header ['\n'] _ r hn hd]
   simp only [Int.toNat_natCast]
   exact mapbcLoop_records recs hr tail d
+
+/-! ## `--viscous-tags` -/
+
+/-- the pieces joined by single commas -/
+def joinComma : List (List Char) → List Char
+  | [] => []
+  | [p] => p
+  | p :: q :: rest => p ++ ',' :: joinComma (q :: rest)
+
+theorem splitOnComma_single (p : List Char) (hp : ',' ∉ p) : splitOnComma p = [p] := by
+  induction p with
+  | nil => rfl
+  | cons c cs ih =>
+    have hc : (c == ',') = false := by
+      have : c ≠ ',' := fun e => hp (by simp [e])
+      simpa using this
+    simp only [splitOnComma, hc, Bool.false_eq_true, if_false]
+    rw [ih (fun hm => hp (List.mem_cons_of_mem _ hm))]
+
+theorem splitOnComma_append (p t : List Char) (hp : ',' ∉ p) :
+    splitOnComma (p ++ ',' :: t) = p :: splitOnComma t := by
+  induction p with
+  | nil => simp [splitOnComma]
+  | cons c cs ih =>
+    have hc : (c == ',') = false := by
+      have : c ≠ ',' := fun e => hp (by simp [e])
+      simpa using this
+    simp only [List.cons_append, splitOnComma, hc, Bool.false_eq_true, if_false]
+    rw [ih (fun hm => hp (List.mem_cons_of_mem _ hm))]
+
+theorem splitOnComma_join (pieces : List (List Char)) (hne : pieces ≠ []) (hp : ∀ p ∈ pieces, ',' ∉ p) :
+    splitOnComma (joinComma pieces) = pieces := by
+  match pieces, hne with
+  | [p], _ => exact splitOnComma_single p (hp p (by simp))
+  | p :: q :: rest, _ =>
+    simp only [joinComma]
+    rw [splitOnComma_append p _ (hp p (by simp)),
+      splitOnComma_join (q :: rest) (by simp) (fun x hx => hp x (List.mem_cons_of_mem _ hx))]
+
+/-- `strtok` on a list of non-empty comma-free pieces joined by commas gives the pieces back -/
+theorem splitComma_join (pieces : List (List Char)) (hp : ∀ p ∈ pieces, ',' ∉ p ∧ p ≠ []) :
+    splitComma (joinComma pieces) = pieces := by
+  unfold splitComma
+  by_cases hne : pieces = []
+  · subst hne; rfl
+  · rw [splitOnComma_join pieces hne (fun p h => (hp p h).1)]
+    apply List.filter_eq_self.mpr
+    intro p h
+    have := (hp p h).2
+    cases p with
+    | nil => exact absurd rfl this
+    | cons _ _ => rfl
+
+/-- **`ref_phys_parse_tags`**: every piece of a well-formed list is stored with the generated type (4000) -/
+theorem parseTags_join (d : RDict) (pieces : List (List Char)) (hp : ∀ p ∈ pieces, ',' ∉ p ∧ p ≠ []) :
+    parseTags d (joinComma pieces)
+      = (pieces.foldl (fun d p => (d.store (atoi p) Refine.Gen.PhysBc.tagsType).1) d, Status.ok) := by
+  unfold parseTags
+  rw [splitComma_join pieces hp]
+
+/-! ## `ref_phys_local_wall` -/
+
+section LocalWall
+variable {α : Type} [Inhabited α]
+
+theorem localWall_mem (twod : Bool) (dict : RDict) (r : PRank α) (e : Elem α) :
+    e ∈ localWall twod dict r ↔
+      if twod then ∃ c ∈ r.edg, isWallId dict c.id = true ∧ e = [cellXyz r.nodes c 0, cellXyz r.nodes c 1]
+      else (∃ c ∈ r.tri, isWallId dict c.id = true ∧
+              e = [cellXyz r.nodes c 0, cellXyz r.nodes c 1, cellXyz r.nodes c 2]) ∨
+           (∃ c ∈ r.qua, isWallId dict c.id = true ∧
+              (e = [cellXyz r.nodes c 0, cellXyz r.nodes c 1, cellXyz r.nodes c 2] ∨
+               e = [cellXyz r.nodes c 0, cellXyz r.nodes c 2, cellXyz r.nodes c 3])) := by
+  unfold localWall
+  cases twod with
+  | true =>
+    simp only [if_true, List.mem_map, List.mem_filter]
+    constructor
+    · rintro ⟨c, ⟨hc, hw⟩, rfl⟩; exact ⟨c, hc, hw, rfl⟩
+    · rintro ⟨c, hc, hw, rfl⟩; exact ⟨c, ⟨hc, hw⟩, rfl⟩
+  | false =>
+    simp only [Bool.false_eq_true, if_false, List.mem_append, List.mem_map, List.mem_filter, List.mem_flatMap,
+      quadTris, List.mem_cons, List.not_mem_nil, or_false]
+    constructor
+    · rintro (⟨c, ⟨hc, hw⟩, rfl⟩ | ⟨c, ⟨hc, hw⟩, he⟩)
+      · exact Or.inl ⟨c, hc, hw, rfl⟩
+      · exact Or.inr ⟨c, hc, hw, he⟩
+    · rintro (⟨c, hc, hw, rfl⟩ | ⟨c, hc, hw, he⟩)
+      · exact Or.inl ⟨c, ⟨hc, hw⟩, rfl⟩
+      · exact Or.inr ⟨c, ⟨hc, hw⟩, he⟩
+
+theorem localWall_length (twod : Bool) (dict : RDict) (r : PRank α) :
+    (localWall twod dict r).length =
+      if twod then (r.edg.filter fun c => isWallId dict c.id).length
+      else (r.tri.filter fun c => isWallId dict c.id).length
+            + 2 * (r.qua.filter fun c => isWallId dict c.id).length := by
+  unfold localWall
+  cases twod with
+  | true => simp
+  | false =>
+    simp only [Bool.false_eq_true, if_false, List.length_append, List.length_map, List.length_flatMap, quadTris]
+    congr 1
+    generalize (r.qua.filter fun c => isWallId dict c.id) = l
+    induction l with
+    | nil => rfl
+    | cons c cs ih =>
+      simp only [List.map_cons, List.sum_cons, List.length_cons, List.length_nil] at ih ⊢
+      omega
+
+/-- the two triangles of a wall quad share the diagonal `0–2` and together contain all four vertices -/
+theorem quadTris_cover (nodes : List (PNode α)) (c : PCell) :
+    ∃ t1 t2, quadTris nodes c = [t1, t2] ∧
+      cellXyz nodes c 0 ∈ t1 ∧ cellXyz nodes c 2 ∈ t1 ∧ cellXyz nodes c 0 ∈ t2 ∧ cellXyz nodes c 2 ∈ t2 ∧
+      cellXyz nodes c 1 ∈ t1 ∧ cellXyz nodes c 3 ∈ t2 ∧
+      (∀ v, v ∈ t1 ∨ v ∈ t2 ↔ ∃ k, k < 4 ∧ v = cellXyz nodes c k) := by
+  refine ⟨_, _, rfl, by simp, by simp, by simp, by simp, by simp, by simp, ?_⟩
+  intro v
+  simp only [List.mem_cons, List.not_mem_nil, or_false]
+  constructor
+  · rintro ((rfl | rfl | rfl) | (rfl | rfl | rfl))
+    · exact ⟨0, by omega, rfl⟩
+    · exact ⟨1, by omega, rfl⟩
+    · exact ⟨2, by omega, rfl⟩
+    · exact ⟨0, by omega, rfl⟩
+    · exact ⟨2, by omega, rfl⟩
+    · exact ⟨3, by omega, rfl⟩
+  · rintro ⟨k, hk, rfl⟩
+    have : k = 0 ∨ k = 1 ∨ k = 2 ∨ k = 3 := by omega
+    rcases this with rfl | rfl | rfl | rfl
+    · exact Or.inl (Or.inl rfl)
+    · exact Or.inl (Or.inr (Or.inl rfl))
+    · exact Or.inl (Or.inr (Or.inr rfl))
+    · exact Or.inr (Or.inr (Or.inr rfl))
+
+end LocalWall
 
 end Refine.Lemmas.PhysDist
